@@ -851,7 +851,9 @@ class ReadParquetPyarrowFS(ReadParquet):
     def _get_lengths(self):
         # TODO: Filters that only filter partition_expr can be used as well
         if not self.filters:
-            return tuple(stats["num_rows"] for stats in self.aggregated_statistics)
+            stats = self.aggregated_statistics
+            # one entry per output partition: a selection may reorder or repeat
+            return tuple(stats[i]["num_rows"] for i in self._partitions)
 
     @cached_property
     def _dataset_info(self):
@@ -1317,11 +1319,8 @@ class ReadParquetFSSpec(ReadParquet):
         """Return known partition lengths using parquet statistics"""
         if not self.filters:
             self._update_length_statistics()
-            return tuple(
-                length
-                for i, length in enumerate(self._pq_length_stats)
-                if not self._filtered or i in self._partitions
-            )
+            # one entry per output partition (already restricted to the selection)
+            return tuple(self._pq_length_stats)
         return None
 
     def _update_length_statistics(self):
@@ -1330,10 +1329,10 @@ class ReadParquetFSSpec(ReadParquet):
         if not self._pq_length_stats:
             if self._plan["statistics"]:
                 # Already have statistics from original API call
+                # a selection may reorder or repeat partitions
+                statistics = self._plan["statistics"]
                 self._pq_length_stats = tuple(
-                    stat["num-rows"]
-                    for i, stat in enumerate(self._plan["statistics"])
-                    if not self._filtered or i in self._partitions
+                    statistics[i]["num-rows"] for i in self._partitions
                 )
             else:
                 # Need to go back and collect statistics
@@ -1578,11 +1577,7 @@ def _collect_pq_statistics(
 
     # Collect statistics using layer information
     fs = expr._io_func.fs
-    parts = [
-        part
-        for i, part in enumerate(expr._plan["parts"])
-        if not expr._filtered or i in expr._partitions
-    ]
+    parts = [expr._plan["parts"][i] for i in expr._partitions]
 
     # Execute with delayed for large and remote datasets
     parallel = int(False if _is_local_fs(fs) else 16)
